@@ -1,24 +1,66 @@
-(* C07_Corr.v — correspondence vocabulary for C07.  A case is a queue layout together with
-   what the two real functions did on it: the unexported combineBindingContextForHook
-   ([c_int]) and the exported twin CombineBindingContextForHook ([c_exp]), each on a fresh
-   copy of the layout.  Evaluated by vm_compute in the generated cases files. *)
+(* C07_Corr.v — correspondence vocabulary for C07.  Three case classes:
+
+   [mkCase]  a queue layout together with what the two real functions did on it: the
+             unexported combineBindingContextForHook ([c_int]) and the exported twin
+             CombineBindingContextForHook ([c_exp]), each on a fresh copy of the layout, the
+             queue object handed over directly (part 1 of the model);
+   [CSet]    a SET of named queues and an executed task carrying a queue name; both real
+             functions called with the expression of taskHandleHookRun,
+             combine...(tqs, tqs.GetByName(t.GetQueueName()), t, stop) (part 2);
+   [COp]     a session on the real operator: its task handler executing heads of queues (the
+             harness plays the queue worker) and the real admission / conversion event handlers
+             running their queue-less tasks, real hook processes recording their context files
+             (part 3).
+   Evaluated by vm_compute in the generated cases files. *)
 From Verif Require Import Common C07_Model C07_Spec.
 
-Record case := mkCase { c_in : input; c_int : obs; c_exp : obs }.
+Inductive case :=
+| mkCase (c_in : input) (c_int c_exp : obs)
+| CSet (i : sinput) (o_int o_exp : sobs)
+| COp (i : oinput) (o : list ostepobs).
 
-(* short constructors for the generated files *)
-Definition T := mkTask.
+(* short constructors for the generated files; [T] is a task carrying the name "main" (1) *)
+Definition T (id hook ty : N) (meta : bool) (cs : list ctx) (mids : list N) : task :=
+  mkTask id hook ty meta cs mids 1.
+Definition TQ := mkTask.
 Definition C := mkCtx.
+Definition R := mkRun.
 
 Definition res_eqb (a b : list ctx * list N) : bool :=
   ctxs_eqb (fst a) (fst b) && ns_eqb (snd a) (snd b).
 Definition obs_eqb (a b : obs) : bool :=
   option_eqb res_eqb (o_res a) (o_res b) && ns_eqb (o_queue a) (o_queue b).
+Definition sobs_eqb (a b : sobs) : bool :=
+  option_eqb res_eqb (so_res a) (so_res b)
+  && list_eqb (pair_eqb N.eqb ns_eqb) (so_queues a) (so_queues b).
+Definition run_eqb (a b : orun) : bool :=
+  N.eqb (ru_hook a) (ru_hook b) && ctxs_eqb (ru_ctxs a) (ru_ctxs b).
+Definition ostepobs_eqb (a b : ostepobs) : bool :=
+  list_eqb run_eqb (st_runs a) (st_runs b) && Bool.eqb (st_success a) (st_success b)
+  && list_eqb (pair_eqb N.eqb tasks_eqb) (st_state a) (st_state b).
 
-Definition model_obs (c : case) : obs := run_model (c_in c).
+Inductive mobs := MObs (o : obs) | MSet (o : sobs) | MOp (o : list ostepobs).
+
+Definition model_obs (c : case) : mobs :=
+  match c with
+  | mkCase i _ _ => MObs (run_model i)
+  | CSet i _ _ => MSet (run_set i)
+  | COp i _ => MOp (run_session (oi_qs i) (oi_steps i))
+  end.
+
 Definition agrees (c : case) : bool :=
-  obs_eqb (model_obs c) (c_int c) && obs_eqb (model_obs c) (c_exp c).
+  match c with
+  | mkCase i a b => obs_eqb (run_model i) a && obs_eqb (run_model i) b
+  | CSet i a b => sobs_eqb (run_set i) a && sobs_eqb (run_set i) b
+  | COp i o => list_eqb ostepobs_eqb (run_session (oi_qs i) (oi_steps i)) o
+  end.
+
+Definition holds (c : case) : bool :=
+  match c with
+  | mkCase i a b => P i a && P i b
+  | CSet i a b => P_set i a && P_set i b
+  | COp i o => P_session (oi_qs i) (oi_steps i) o
+  end.
 
 Definition mismatches (cs : list case) : list N := indices_where (fun c => negb (agrees c)) cs.
-Definition spec_violations (cs : list case) : list N :=
-  indices_where (fun c => negb (P (c_in c) (c_int c) && P (c_in c) (c_exp c))) cs.
+Definition spec_violations (cs : list case) : list N := indices_where (fun c => negb (holds c)) cs.
